@@ -28,6 +28,12 @@ class Obj(dict):
     """a record standing for an object of the analysed program: attribute name -> value (handed to the evaluator by a rule)"""
 
 
+class LocalFunction(object):
+    """a function defined inside the function under evaluation"""
+    def __init__(self, node):
+        self.node = node
+
+
 class Inst(object):
     """an object the evaluated code constructs itself from a class of the analysed package (a small helper class such as a range or a named record): the class (sa.model
     ClassInfo) and the attribute values its methods have stored"""
@@ -268,6 +274,17 @@ def ev(node, env):
         return True
     if isinstance(node, ast.IfExp):
         return ev(node.body, env) if ev(node.test, env) else ev(node.orelse, env)
+    if isinstance(node, ast.Call) and isinstance(node.func, ast.Name) and isinstance(env.get(node.func.id), LocalFunction):
+        # a function defined inside the evaluated function: interpreted with the variables of the enclosing invocation visible (read-only closure)
+        lf = env[node.func.id]
+        params = [a.arg for a in lf.node.args.args]
+        args = [ev(a, env) for a in node.args]
+        if len(args) != len(params) or node.keywords:
+            raise Unsupported('arity of local function %s' % node.func.id)
+        genv = dict(env)
+        genv.update(zip(params, args))
+        r, _ = run_function(lf.node, genv)
+        return r
     if isinstance(node, ast.Call) and isinstance(node.func, ast.Name) and '__funcs__' in env and node.func.id not in ('len', 'int', 'bool', 'max', 'min', 'abs', 'divmod', 'bytes', 'bytearray'):
         # a module-level function of the analysed file, interpreted by run_function (decision-table code only)
         g = env['__funcs__'](node.func.id)
@@ -607,6 +624,16 @@ def run_function(f, env, max_steps=10000, skip_calls=False, tolerant=False, skip
                 raise Unsupported('unpacking')
             for tt, vv in zip(t.elts, v):
                 bind(tt, vv)
+        elif isinstance(t, ast.Subscript) and not isinstance(t.slice, ast.Slice):
+            base = ev(t.value, env)
+            idx = ev(t.slice, env)
+            if isinstance(base, (dict, list, bytearray)):
+                try:
+                    base[idx] = v              # a container of the interpreter's own values (a descriptor handed in by the rule, a local list)
+                except (IndexError, TypeError):
+                    raise Unsupported('subscript store')
+            else:
+                raise Unsupported('subscript store on %s' % type(base).__name__)
         elif isinstance(t, ast.Attribute) and isinstance(t.value, ast.Name) and isinstance(env.get(t.value.id), Inst):
             env[t.value.id].attrs[t.attr] = v
         elif isinstance(t, ast.Attribute):
@@ -772,6 +799,8 @@ def run_function(f, env, max_steps=10000, skip_calls=False, tolerant=False, skip
                 pass          # the base class's part of the construction is not what is being evaluated
             elif isinstance(s, ast.Expr) and isinstance(s.value, ast.Call):
                 ev(s.value, env)      # a checking helper of the same module / object: interpreted (it may raise)
+            elif isinstance(s, ast.FunctionDef) and not s.decorator_list:
+                env[s.name] = LocalFunction(s)
             else:
                 raise Unsupported('statement %s' % type(s).__name__)
     try:
